@@ -659,7 +659,16 @@ func (g *G) tryStmt(c *gctx) *N {
 	}
 	tb.inLoop = false
 	tb.canRet = false
-	s.Ss = append(s.Ss, g.block(tb, g.n(0, g.prof.MaxStmts, "tryn")))
+	tryBody := g.block(tb, g.n(0, g.prof.MaxStmts, "tryn"))
+	pattern := g.prof.Errors && g.chance(30)
+	if pattern {
+		// a binding made inside the try block, then a certain error: whatever way the catch
+		// block is left, the binding must be gone afterwards
+		g.feat("try_binds_then_throws")
+		tryBody = append([]*N{{K: "var", Ps: []string{g.name()}, Ns: []*N{g.val()}}}, tryBody...)
+		tryBody = append(tryBody, &N{K: "throw", Ns: []*N{g.thrown(c)}})
+	}
+	s.Ss = append(s.Ss, tryBody)
 	c.keep(tb, g)
 	cb := c.sub()
 	if g.chance(60) {
@@ -669,6 +678,24 @@ func (g *G) tryStmt(c *gctx) *N {
 		s.Ss = append(s.Ss, body)
 	} else {
 		s.Ss = append(s.Ss, g.block(cb, g.n(0, 3, "catchn")))
+	}
+	if pattern {
+		// leave the catch block abruptly where the context allows it
+		var exits []*N
+		if cb.inLoop {
+			exits = append(exits, &N{K: "cont"}, &N{K: "break"})
+		}
+		if cb.canRet {
+			exits = append(exits, g.retStmt(cb))
+		}
+		if len(exits) > 0 && g.chance(70) {
+			e := exits[g.n(0, len(exits)-1, "catchexit")]
+			if g.chance(50) {
+				e = &N{K: "if", Ns: []*N{g.cond(c, 1)}, Ss: [][]*N{{e}}}
+			}
+			s.Ss[1] = append(s.Ss[1], e)
+			g.feat("catch_left_abruptly_by_construction")
+		}
 	}
 	c.keep(cb, g)
 	if g.chance(50) {
